@@ -33,6 +33,135 @@ impl Identity for SId {
     }
 }
 
+/// an identity with a length-prefixed field (no wire model: real codecs only)
+#[derive(Clone, Debug, PartialEq, Eq, Serialize, Deserialize)]
+pub struct HId {
+    pub host: String,
+    pub port: u16,
+}
+impl Identity for HId {
+    type Addr = String;
+    fn renew(&self) -> Option<Self> {
+        None
+    }
+    fn addr(&self) -> String {
+        self.host.clone()
+    }
+    fn win_addr_conflict(&self, adv: &Self) -> bool {
+        self.port > adv.port
+    }
+}
+
+/// run in a CHILD process (harness allocprobe k): hand Foca::handle_data a datagram whose first string length prefix is isize::MAX, with
+/// codec k (0 bincode standard, 1 postcard, 2 bincode legacy).  Prints a line if the decoder returns at all.
+pub fn alloc_probe(k: u64) -> String {
+    let l = isize::MAX as u64;
+    let mut inp: Vec<u8> = match k {
+        0 => { let mut v = vec![253u8]; v.extend(l.to_le_bytes()); v }
+        1 => { let mut v = vec![]; let mut x = l; loop { let b = (x & 0x7f) as u8; x >>= 7; if x == 0 { v.push(b); break; } else { v.push(b | 0x80); } } v }
+        _ => l.to_le_bytes().to_vec(),
+    };
+    inp.extend([b'a', b'b', 0, 1, 0, 0, 0]);
+    // through the real entry point: the datagram's header starts with the sender identity, whose first field is the string
+    let me = HId { host: "me".into(), port: 1 };
+    let r = match k {
+        0 => foca::Foca::<HId, _, _, foca::NoCustomBroadcast>::new(me, foca::Config::simple(), crate::vid::VRng::new(1), BincodeCodec(bincode::config::standard())).handle_data(&inp, foca::AccumulatingRuntime::new()).is_ok(),
+        1 => foca::Foca::<HId, _, _, foca::NoCustomBroadcast>::new(me, foca::Config::simple(), crate::vid::VRng::new(1), PostcardCodec).handle_data(&inp, foca::AccumulatingRuntime::new()).is_ok(),
+        _ => foca::Foca::<HId, _, _, foca::NoCustomBroadcast>::new(me, foca::Config::simple(), crate::vid::VRng::new(1), BincodeCodec(bincode::config::legacy())).handle_data(&inp, foca::AccumulatingRuntime::new()).is_ok(),
+    };
+    format!("survived ok={r}")
+}
+
+/// parent side: the probe must come back with an answer
+fn alloc_probe_children(out: &mut FOut, cases: &mut u64) {
+    let Ok(exe) = std::env::current_exe() else { return };
+    for (k, name) in [(0u64, "bincode(standard)"), (1, "postcard"), (2, "bincode(legacy)")] {
+        *cases += 1;
+        let res = Command::new(&exe).arg("allocprobe").arg(k.to_string()).stdout(Stdio::piped()).stderr(Stdio::null()).output();
+        let survived = matches!(&res, Ok(o) if o.status.success() && String::from_utf8_lossy(&o.stdout).contains("survived"));
+        if !survived {
+            out.hit(
+                "C20:decoder-aborts-on-huge-length-prefix",
+                J::s(format!("codec {name}, identity with a String field: Foca::handle_data on a datagram whose first string length prefix is isize::MAX did not return (child process: {:?}); input = the length prefix followed by 'ab' 0 1 0 0 0", res.map(|o| o.status.to_string()))),
+            );
+        }
+    }
+}
+
+/// identities carrying a string: round trip with trailing data, every truncation, and LENGTH PREFIXES chosen to
+/// overflow (u64::MAX, usize::MAX - k, 2^63, 2^32, 2^31 ...) in every integer encoding the bundled codecs
+/// use (LEB128, bincode's marker bytes, fixed little / big endian) - a value or an error, never a panic
+fn string_identity_sweep<C: Codec<HId>>(mut codec: C, cname: &str, prealloc: bool, g: &mut G, out: &mut FOut, cases: &mut u64) {
+    let host: String = (0..g.below(12)).map(|_| (b'a' + g.below(26) as u8) as char).collect();
+    let id = HId { host, port: g.below(65536) as u16 };
+    let hdr = Header { src: id.clone(), src_incarnation: gen_u(g, 16) as u16, dst: HId { host: "peer".into(), port: 1 }, message: Message::Ping(g.below(256) as u8) };
+    let mem = Member::new(id.clone(), gen_u(g, 16) as u16, State::Suspect);
+    for what in 0..2u8 {
+        let ctx = format!("codec={cname} identity {id:?} ({})", if what == 0 { "header" } else { "member" });
+        let mut full: Vec<u8> = vec![];
+        let r = catch_unwind(AssertUnwindSafe(|| if what == 0 { codec.encode_header(&hdr, &mut full).is_ok() } else { codec.encode_member(&mem, &mut full).is_ok() }));
+        *cases += 1;
+        if !matches!(r, Ok(true)) {
+            out.hit("C20:encode-failed-or-panicked", J::s(ctx.clone()));
+            continue;
+        }
+        out.distinct.insert(hash_of(&(cname.to_string(), "string-id", what, full.len())));
+        let mut with_tail = full.clone();
+        for _ in 0..g.below(6) {
+            with_tail.push(g.below(256) as u8);
+        }
+        let mut cur = &with_tail[..];
+        let rt = catch_unwind(AssertUnwindSafe(|| {
+            if what == 0 { codec.decode_header(&mut cur).ok().map(|h| h == hdr) } else { codec.decode_member(&mut cur).ok().map(|m| m.id() == mem.id() && m.incarnation() == mem.incarnation() && m.state() == mem.state()) }
+        }));
+        *cases += 1;
+        match rt {
+            Ok(Some(true)) if with_tail.len() - cur.len() == full.len() => {}
+            other => out.hit("C20:round-trip-failed", J::s(format!("{ctx}: encoded {full:?}, decoded {other:?}, consumed {}", with_tail.len() - cur.len()))),
+        }
+        let mut inputs: Vec<Vec<u8>> = (0..full.len()).map(|k| full[..k].to_vec()).collect();
+        // bincode allocates the announced length before reading (known finding F9: with isize::MAX the allocation
+        // fails and the process aborts, and so does any length beyond the memory available - probed in a child
+        // process by alloc_probe); in-process such codecs get no crafted length prefixes, only truncations
+        let mut lens: Vec<u64> = vec![];
+        if !prealloc {
+            lens.extend([65536, 255, 251, 250, 1 << 20, u64::MAX, u64::MAX - 1, 1 << 63, (1 << 63) - 1, 1 << 32, (1 << 32) - 1, 1 << 31]);
+            for k in 0..24u64 {
+                lens.push(u64::MAX - k);
+                lens.push((usize::MAX as u64) - k);
+            }
+        }
+        for l in lens {
+            let mut leb = vec![];
+            let mut v = l;
+            loop {
+                let b = (v & 0x7f) as u8;
+                v >>= 7;
+                if v == 0 { leb.push(b); break; } else { leb.push(b | 0x80); }
+            }
+            let mut marker = vec![253u8];
+            marker.extend(l.to_le_bytes());
+            let mut marker_be = vec![253u8];
+            marker_be.extend(l.to_be_bytes());
+            for prefix in [leb, marker, marker_be, l.to_le_bytes().to_vec(), l.to_be_bytes().to_vec()] {
+                let mut b = prefix;
+                b.extend(&full[..full.len().min(9)]);
+                inputs.push(b);
+            }
+        }
+        for inp in inputs {
+            let mut cur = &inp[..];
+            let r = catch_unwind(AssertUnwindSafe(|| if what == 0 { codec.decode_header(&mut cur).is_ok() } else { codec.decode_member(&mut cur).is_ok() }));
+            *cases += 1;
+            if r.is_err() {
+                out.hit("C20:decoder-panicked", J::s(format!("{ctx}: input {inp:?}")));
+            } else if cur.len() > inp.len() {
+                out.hit("C20:read-past-input", J::s(format!("{inp:?}")));
+            }
+        }
+    }
+}
+
 /// a broadcast handler that accepts every item and never invalidates anything
 pub struct KeepAll;
 pub struct NoKey;
@@ -594,6 +723,16 @@ pub fn c20(seed: u64, budget: u64) -> FOut {
             other_config(BincodeCodec(bincode::config::standard().with_fixed_int_encoding()), "fixed-int", &mut g, &mut out, &mut cases);
             other_config(BincodeCodec(bincode::config::legacy()), "legacy", &mut g, &mut out, &mut cases);
             other_config(BincodeCodec(bincode::config::standard().with_big_endian().with_fixed_int_encoding()), "big-endian fixed-int", &mut g, &mut out, &mut cases);
+        }
+        if _run == 0 {
+            alloc_probe_children(&mut out, &mut cases);
+        }
+        if _run % 4 == 1 {
+            string_identity_sweep(BincodeCodec(bincode::config::standard()), "bincode", true, &mut g, &mut out, &mut cases);
+            string_identity_sweep(PostcardCodec, "postcard", false, &mut g, &mut out, &mut cases);
+            string_identity_sweep(BincodeCodec(bincode::config::standard().with_big_endian()), "bincode(big-endian)", true, &mut g, &mut out, &mut cases);
+            string_identity_sweep(BincodeCodec(bincode::config::legacy()), "bincode(legacy)", true, &mut g, &mut out, &mut cases);
+            string_identity_sweep(BincodeCodec(bincode::config::standard().with_big_endian().with_fixed_int_encoding()), "bincode(big-endian fixed-int)", true, &mut g, &mut out, &mut cases);
         }
         if _run % 8 == 0 {
             feed_sweep(BincodeCodec(bincode::config::standard()), "bincode", &mut g, &mut out, &mut cases);
